@@ -1,53 +1,773 @@
+// C20: build labels round-trip and target patterns select exactly their targets.
+// Implementation side of the correspondence + the property oracle.
 package main
 
 import (
 	"fmt"
+	"sort"
+	"strings"
+
+	"verifharness/lib"
 
 	"github.com/thought-machine/please/src/core"
+	"github.com/thought-machine/please/src/parse/asp"
 )
 
-func main() {
-	alpha := []byte("/:a.@#_-")
-	total, acc, fails := 0, 0, 0
-	classes := map[string]int{}
-	ex := map[string]string{}
-	var rec func(prefix []byte, n int)
-	rec = func(prefix []byte, n int) {
-		s := string(prefix)
-		total++
-		for _, cur := range []string{"", "a/a"} {
-			l, err := core.TryParseBuildLabel(s, cur, "")
-			if err == nil {
-				acc++
-				p := l.String()
-				l2, err2 := core.TryParseBuildLabel(p, cur, "")
-				if err2 != nil || l2 != l {
-					fails++
-					k := fmt.Sprintf("%q->%+v", "", "")
-					_ = k
-					cls := "other"
-					_, e3 := core.TryNewBuildLabel(l.PackageName, l.Name)
-					if e3 != nil {
-						cls = "name-invalid"
-					} else if len(l.Subrepo) > 0 && l.Subrepo[len(l.Subrepo)-1] == '/' {
-						cls = "subrepo-slash"
-					}
-					if cls == "other" { fmt.Printf("OTHER %q cur=%q -> %+v print %q -> %+v %v\n", s, cur, l, p, l2, err2) }
-					classes[cls]++
-					if false {
-						fmt.Printf("%q cur=%q -> %+v print %q -> %+v %v\n", s, cur, l, p, l2, err2)
-					}
-					_ = ex
-				}
-			}
-		}
-		if n == 0 {
-			return
-		}
-		for _, c := range alpha {
-			rec(append(prefix, c), n-1)
+// ------------------------------------------------------------------------------------------------
+// Coq printers
+
+func coqLabel(l core.BuildLabel) string {
+	return lib.App("L", lib.Str(l.PackageName), lib.Str(l.Name), lib.Str(l.Subrepo))
+}
+
+func coqLabels(ls []core.BuildLabel) string {
+	out := make([]string, len(ls))
+	for i, l := range ls {
+		out[i] = coqLabel(l)
+	}
+	return lib.List(out)
+}
+
+func coqBools(bs []bool) string {
+	out := make([]string, len(bs))
+	for i, b := range bs {
+		out[i] = lib.Bool(b)
+	}
+	return lib.List(out)
+}
+
+type jsLabel struct {
+	Pkg     string `json:"pkg"`
+	Name    string `json:"name"`
+	Subrepo string `json:"subrepo"`
+}
+
+func js(l core.BuildLabel) jsLabel { return jsLabel{l.PackageName, l.Name, l.Subrepo} }
+func jsl(ls []core.BuildLabel) []jsLabel {
+	out := []jsLabel{}
+	for _, l := range ls {
+		out = append(out, js(l))
+	}
+	return out
+}
+
+// ------------------------------------------------------------------------------------------------
+// The property oracle, written from the documentation, not from the code.
+
+// A target name as the documentation describes it: non-empty, none of the reserved characters, not
+// hidden-file-like (leading dot) except the pseudo-name "...", and not one of the reserved suffixes.
+func docValidName(n string) bool {
+	if n == "" {
+		return false
+	}
+	for i := 0; i < len(n); i++ {
+		switch n[i] {
+		case '|', '$', '*', '?', '[', ']', '{', '}', ':', '(', ')', '&', '/', '\\':
+			return false
 		}
 	}
-	rec(nil, 6)
-	fmt.Println(total, acc, fails, classes)
+	if n[0] == '.' && n != "..." {
+		return false
+	}
+	return !strings.HasSuffix(n, "._build") && !strings.HasSuffix(n, "._test")
+}
+
+// components of a package path; the root package has none.
+func comps(p string) []string {
+	if p == "" {
+		return nil
+	}
+	return strings.Split(p, "/")
+}
+
+// under: q is package p or a package in a directory below p (component-wise, never by string prefix).
+func under(p, q string) bool {
+	cp, cq := comps(p), comps(q)
+	if len(cp) > len(cq) {
+		return false
+	}
+	for i := range cp {
+		if cp[i] != cq[i] {
+			return false
+		}
+	}
+	return true
+}
+
+// docSelects: does pattern pat select the package/target `other`?  rootAlias: names that also denote the
+// repository root for this use (Matches accepts "." = PackageDir of the root).  exact decides a plain label.
+func docSelects(pat, other core.BuildLabel, rootAlias string, exact func() bool) bool {
+	switch pat.Name {
+	case "...":
+		return (rootAlias != "" && pat.PackageName == rootAlias) || under(pat.PackageName, other.PackageName)
+	case "all":
+		return pat.PackageName == other.PackageName
+	}
+	return exact()
+}
+
+func docIncludes(pat, other core.BuildLabel) bool {
+	return docSelects(pat, other, "", func() bool { return pat.PackageName == other.PackageName && pat.Name == other.Name })
+}
+
+func docMatches(pat, other core.BuildLabel) bool {
+	return docSelects(pat, other, ".", func() bool { return pat == other.Parent() })
+}
+
+func sharesStringPrefix(p, q string) bool { return p != "" && strings.HasPrefix(q, p) }
+
+// ------------------------------------------------------------------------------------------------
+// 1. parse / print
+
+const alphabet = "/:a.@#_-"
+
+type rtResult struct {
+	ok      bool
+	class   string
+	what    string
+	printed string
+	re      *jsLabel
+}
+
+// roundTrip is the repository's own FuzzParseBuildLabel assertion: an accepted string parses to a label whose
+// String() parses back to an equal label.  Failures get a narrow class.
+func roundTrip(target, cur string, l core.BuildLabel) rtResult {
+	p := l.String()
+	l2, err := core.TryParseBuildLabel(p, cur, "")
+	if err == nil && l2 == l {
+		return rtResult{ok: true, printed: p}
+	}
+	r := rtResult{printed: p}
+	if err == nil {
+		j := js(l2)
+		r.re = &j
+	}
+	switch {
+	case l.PackageName == "" && l.Name == "_ORIGINAL" && l.Subrepo == "" && p == "command-line targets":
+		r.class = "original-target-sentinel"
+	case err != nil && !strings.Contains(target, ":") && !docValidName(l.Name):
+		r.class = "implied-name-unvalidated"
+	case err == nil && strings.HasSuffix(l.Subrepo, "/") && l2.PackageName == l.PackageName && l2.Name == l.Name &&
+		l2.Subrepo == strings.TrimRight(l.Subrepo, "/"):
+		r.class = "subrepo-trailing-slash"
+	default:
+		r.class = "label-roundtrip-other"
+	}
+	if err != nil {
+		r.what = fmt.Sprintf("%q (in package %q) parses to %+v, printed %q, which does not parse: %v", target, cur, l, p, err)
+	} else {
+		r.what = fmt.Sprintf("%q (in package %q) parses to %+v, printed %q, which parses to the different label %+v", target, cur, l, p, l2)
+	}
+	return r
+}
+
+func rtInput(target, cur string, l core.BuildLabel, r rtResult) map[string]any {
+	return map[string]any{"target": target, "current_path": cur, "label": js(l), "printed": r.printed, "reparsed": r.re}
+}
+
+type enumStats struct{ strings, accepted, failing int }
+
+// enumGroup enumerates prefix++w, |w| <= depth, in pre-order through the real parser.
+func enumGroup(c *lib.Ctx, prefix string, depth int, cur string, st *enumStats, labels map[core.BuildLabel]bool) {
+	items := []string{}
+	var rec func(x []byte, d int)
+	rec = func(x []byte, d int) {
+		t := string(x)
+		st.strings++
+		if l, err := core.TryParseBuildLabel(t, cur, ""); err == nil {
+			st.accepted++
+			items = append(items, lib.Pair(lib.Str(t), coqLabel(l)))
+			labels[l] = true
+			c.Oracle()
+			if r := roundTrip(t, cur, l); !r.ok {
+				st.failing++
+				c.Fail(r.class, r.what, rtInput(t, cur, l, r))
+			}
+		}
+		if d == 0 {
+			return
+		}
+		for i := 0; i < len(alphabet); i++ {
+			rec(append(append([]byte{}, x...), alphabet[i]), d-1)
+		}
+	}
+	rec([]byte(prefix), depth)
+	c.Case(lib.App("CEnum", lib.Str(alphabet), lib.Nat(depth), lib.Str(prefix), lib.Str(cur), lib.List(items)),
+		map[string]any{"kind": "enum", "prefix": prefix, "depth": depth, "current_path": cur, "accepted": len(items)},
+		"enum "+prefix, len(items) > 0)
+	c.HistN("enum_accepted_per_group_log2", log2(len(items)))
+}
+
+func log2(n int) int {
+	k := 0
+	for n > 0 {
+		n >>= 1
+		k++
+	}
+	return k
+}
+
+func allStrings(n int) []string {
+	out := []string{""}
+	for i := 0; i < n; i++ {
+		next := []string{}
+		for _, p := range out {
+			for j := 0; j < len(alphabet); j++ {
+				next = append(next, p+string(alphabet[j]))
+			}
+		}
+		out = next
+	}
+	return out
+}
+
+// --- structured and fuzzed label strings
+
+var segPool = []string{"a", "b", "p", "pfoo", "p-x", "src", "core", "third_party", ".x", "..", ".", "x._build", "y._test", "...", "all", "_a", "a.b", "é", "a b"}
+var namePool = []string{"a", "t", "core", "all", "...", "_t#x", "__t#a#b", "t#x", "#", "_#", ".hidden", "x._build", "x._test", "_ORIGINAL", "_STDIN", "a|b", "a$", "n-1", "é", "a b", "x.y"}
+var subPool = []string{"", "", "sub", "third_party/go", "s@linux_amd64", "a/", "/", "/a", ".s", "s:t", "pleasings"}
+var mutBytes = []byte("/:@#._-|$*?[]{}()&\\ a\x00\xff\xc3")
+
+func genPkg(r *lib.Rng) string {
+	n := r.Range(0, 3)
+	segs := []string{}
+	for i := 0; i < n; i++ {
+		segs = append(segs, lib.Pick(r, segPool))
+	}
+	return strings.Join(segs, "/")
+}
+
+func genValidPkg(r *lib.Rng) string {
+	for {
+		p := genPkg(r)
+		if docValidPkg(p) {
+			return p
+		}
+	}
+}
+
+func docValidPkg(p string) bool {
+	if p == "" {
+		return true
+	}
+	if p[0] == '/' || p[len(p)-1] == '/' || strings.Contains(p, "//") {
+		return false
+	}
+	return !strings.ContainsAny(p, "|$*?[]{}:()&\\")
+}
+
+func genLabelString(r *lib.Rng) string {
+	pkg, name, sub := genPkg(r), lib.Pick(r, namePool), lib.Pick(r, subPool)
+	var t string
+	switch r.Intn(12) {
+	case 0:
+		t = "//" + pkg + ":" + name
+	case 1:
+		t = "//" + pkg
+	case 2:
+		t = ":" + name
+	case 3:
+		t = "@" + sub + "//" + pkg + ":" + name
+	case 4:
+		t = "///" + sub + "//" + pkg + ":" + name
+	case 5:
+		t = "@" + sub
+	case 6:
+		t = "@" + sub + ":" + name
+	case 7:
+		t = "//" + pkg + "/..."
+	case 8:
+		t = "///" + sub + "//" + pkg + "/..."
+	case 9:
+		t = "///" + sub + "//" + pkg
+	case 10:
+		t = core.BuildLabel{PackageName: pkg, Name: name, Subrepo: sub}.String()
+	default:
+		t = "//" + pkg + ":" + name
+	}
+	// mutate
+	b := []byte(t)
+	for k := r.Intn(3); k > 0 && r.Chance(1, 2); k-- {
+		switch r.Intn(3) {
+		case 0:
+			if len(b) > 0 {
+				b[r.Intn(len(b))] = lib.Pick(r, mutBytes)
+			}
+		case 1:
+			i := r.Intn(len(b) + 1)
+			b = append(b[:i], append([]byte{lib.Pick(r, mutBytes)}, b[i:]...)...)
+		case 2:
+			if len(b) > 0 {
+				i := r.Intn(len(b))
+				b = append(b[:i], b[i+1:]...)
+			}
+		}
+	}
+	return string(b)
+}
+
+func parseCase(c *lib.Ctx, target, cur, sub string, labels map[core.BuildLabel]bool) {
+	l, err := core.TryParseBuildLabel(target, cur, sub)
+	in := map[string]any{"kind": "parse", "target": target, "current_path": cur, "subrepo_arg": sub}
+	if err == nil {
+		in["label"] = js(l)
+		labels[l] = true
+	}
+	c.Case(lib.App("CParse", lib.Str(target), lib.Str(cur), lib.Str(sub), lib.Opt(err == nil, coqLabel(l))), in,
+		"parse "+target+"\x00"+cur+"\x00"+sub, err == nil)
+	if err == nil {
+		c.Hist("parse", "accepted")
+		c.Oracle()
+		if r := roundTrip(target, cur, l); !r.ok {
+			// with a subrepo argument the label carries the caller's subrepo; String() must still re-parse to it
+			c.Fail(r.class, r.what, rtInput(target, cur, l, r))
+		}
+	} else {
+		c.Hist("parse", "rejected")
+	}
+}
+
+// ------------------------------------------------------------------------------------------------
+// 2. package trees
+
+var treeSegs = []string{"p", "pfoo", "p-x", "pf", "q", "sub", "exp", "expo", "a", "ab", "third_party", "_please", "x.y"}
+
+// genTree returns a set of package names with shared-prefix siblings: for a package q also q+"foo", q+"/sub",
+// q minus its last byte, and the parents of everything.
+func genTree(r *lib.Rng) []string {
+	set := map[string]bool{}
+	n := r.Range(2, 5)
+	for i := 0; i < n; i++ {
+		d := r.Range(1, 3)
+		segs := []string{}
+		for j := 0; j < d; j++ {
+			segs = append(segs, lib.Pick(r, treeSegs))
+		}
+		q := strings.Join(segs, "/")
+		set[q] = true
+		if r.Chance(2, 3) {
+			set[q+lib.Pick(r, []string{"foo", "o", "-x", "_", "0"})] = true
+		}
+		if r.Chance(1, 2) {
+			set[q+"/"+lib.Pick(r, treeSegs)] = true
+		}
+		if len(q) > 1 && q[len(q)-2] != '/' && r.Chance(1, 2) {
+			set[q[:len(q)-1]] = true
+		}
+		if r.Chance(1, 2) && d > 1 {
+			set[strings.Join(segs[:d-1], "/")] = true
+		}
+	}
+	if r.Chance(1, 2) {
+		set[""] = true
+	}
+	if r.Chance(1, 8) {
+		set["."] = true
+	}
+	out := []string{}
+	for q := range set {
+		out = append(out, q)
+	}
+	sort.Strings(out)
+	return out
+}
+
+var targetNames = []string{"t", "u", "_t#x", "__u#a", "all", "lib"}
+var treeSubs = []string{"", "", "", "s"}
+
+func genPatterns(r *lib.Rng, tree []string) []core.BuildLabel {
+	pats := []core.BuildLabel{}
+	for _, q := range tree {
+		if r.Chance(3, 4) {
+			pats = append(pats, core.BuildLabel{PackageName: q, Name: "...", Subrepo: lib.Pick(r, treeSubs)})
+		}
+		if r.Chance(1, 2) {
+			pats = append(pats, core.BuildLabel{PackageName: q, Name: "all", Subrepo: lib.Pick(r, treeSubs)})
+		}
+		if r.Chance(1, 3) {
+			pats = append(pats, core.BuildLabel{PackageName: q, Name: lib.Pick(r, targetNames), Subrepo: lib.Pick(r, treeSubs)})
+		}
+	}
+	// a pattern for a directory that is not itself a package, and the root aliases
+	pats = append(pats, core.BuildLabel{PackageName: lib.Pick(r, treeSegs), Name: "..."})
+	if r.Chance(1, 3) {
+		pats = append(pats, core.BuildLabel{PackageName: lib.Pick(r, []string{"", "."}), Name: "..."})
+	}
+	return pats
+}
+
+func genOthers(r *lib.Rng, tree []string) []core.BuildLabel {
+	out := []core.BuildLabel{}
+	for _, q := range tree {
+		out = append(out, core.BuildLabel{PackageName: q, Name: lib.Pick(r, targetNames), Subrepo: lib.Pick(r, treeSubs)})
+		if r.Chance(1, 3) {
+			out = append(out, core.BuildLabel{PackageName: q, Name: lib.Pick(r, targetNames)})
+		}
+	}
+	return out
+}
+
+func selectCase(c *lib.Ctx, pats, others []core.BuildLabel) {
+	incRows, matRows := []string{}, []string{}
+	nontrivial := false
+	for _, p := range pats {
+		inc, mat := make([]bool, len(others)), make([]bool, len(others))
+		for i, o := range others {
+			inc[i], mat[i] = p.Includes(o), p.Matches(o)
+			in := map[string]any{"pattern": js(p), "other": js(o)}
+			sib := p.PackageName != o.PackageName && sharesStringPrefix(p.PackageName, o.PackageName) && !under(p.PackageName, o.PackageName)
+			if sib && p.Name == "..." {
+				nontrivial = true
+				c.Hist("pairs", "shared-prefix-sibling")
+			} else if inc[i] {
+				c.Hist("pairs", "selected")
+			} else {
+				c.Hist("pairs", "not-selected")
+			}
+			c.Oracle()
+			if want := docIncludes(p, o); inc[i] != want {
+				cls := "includes-misses-selected-package"
+				if inc[i] {
+					cls = "includes-selects-unrelated-package"
+					if sib {
+						cls = "includes-selects-sibling-by-prefix"
+					}
+				}
+				c.Fail(cls, fmt.Sprintf("%v.Includes(%v) = %v, the documented rule says %v", p, o, inc[i], want), in)
+			}
+			c.Oracle()
+			if want := docMatches(p, o); mat[i] != want {
+				cls := "matches-misses-selected-package"
+				if mat[i] {
+					cls = "matches-selects-unrelated-package"
+					if sib {
+						cls = "matches-selects-sibling-by-prefix"
+					}
+				}
+				c.Fail(cls, fmt.Sprintf("%v.Matches(%v) = %v, the documented rule says %v", p, o, mat[i], want), in)
+			}
+		}
+		incRows = append(incRows, coqBools(inc))
+		matRows = append(matRows, coqBools(mat))
+	}
+	c.Case(lib.App("CSelect", coqLabels(pats), coqLabels(others), lib.List(incRows), lib.List(matRows)),
+		map[string]any{"kind": "select", "patterns": jsl(pats), "others": jsl(others)},
+		fmt.Sprint("sel", pats, others), nontrivial)
+}
+
+// --- validateSandbox
+
+type sbxTarget struct {
+	Label     core.BuildLabel
+	Filegroup bool
+	Remote    bool
+	Sandbox   bool
+	HasTest   bool
+	TestSbx   bool
+}
+
+func sandboxCase(c *lib.Ctx, whitelist []core.BuildLabel, dirs []string, t sbxTarget) {
+	cfg := core.DefaultConfiguration()
+	cfg.Sandbox.ExcludeableTargets = whitelist
+	cfg.Parse.ExperimentalDir = dirs
+	state := &core.BuildState{Config: cfg}
+	bt := core.NewBuildTarget(t.Label)
+	bt.IsFilegroup, bt.IsRemoteFile, bt.Sandbox = t.Filegroup, t.Remote, t.Sandbox
+	if t.HasTest {
+		bt.Test = &core.TestFields{Sandbox: t.TestSbx}
+	}
+	ok := asp.VerifC20ValidateSandbox(state, bt) == nil
+	in := map[string]any{"kind": "sandbox", "whitelist": jsl(whitelist), "experimental_dirs": dirs, "target": js(t.Label),
+		"filegroup": t.Filegroup, "remote_file": t.Remote, "sandbox": t.Sandbox, "has_test": t.HasTest, "test_sandbox": t.TestSbx, "accepted": ok}
+	test := "None"
+	if t.HasTest {
+		test = lib.Some(lib.Bool(t.TestSbx))
+	}
+	optsOut := !(!t.Remote && t.Sandbox && (!t.HasTest || t.TestSbx))
+	c.Case(lib.App("CSandbox", coqLabels(whitelist), lib.StrList(dirs),
+		lib.App("T", coqLabel(t.Label), lib.Bool(t.Filegroup), lib.Bool(t.Remote), lib.Bool(t.Sandbox), test), lib.Bool(ok)),
+		in, fmt.Sprint("sbx", whitelist, dirs, t), optsOut && len(whitelist) > 0 && !t.Filegroup)
+	// oracle: an opt-out is accepted exactly when the target is selected by a whitelist entry or lies in an experimental directory
+	c.Oracle()
+	byWhitelist, byDir, sibW, sibD := false, false, false, false
+	for _, w := range whitelist {
+		if docMatches(w, t.Label) {
+			byWhitelist = true
+		}
+		if w.Name == "..." && sharesStringPrefix(w.PackageName, t.Label.PackageName) {
+			sibW = true
+		}
+	}
+	for _, d := range dirs {
+		if under(d, t.Label.PackageName) {
+			byDir = true
+		}
+		if sharesStringPrefix(d, t.Label.PackageName) {
+			sibD = true
+		}
+	}
+	want := t.Filegroup || len(whitelist) == 0 || !optsOut || t.Label.PackageName == "_please" || byWhitelist || byDir
+	if ok != want {
+		cls := "sandbox-optout-rejected-for-whitelisted-target"
+		if ok {
+			cls = "sandbox-optout-accepted-outside-whitelist"
+			if sibW {
+				cls = "sandbox-whitelist-selects-sibling-by-prefix"
+			} else if sibD {
+				cls = "sandbox-experimental-dir-selects-sibling-by-prefix"
+			}
+		}
+		c.Fail(cls, fmt.Sprintf("validateSandbox accepted=%v for %v with whitelist %v and experimental dirs %v; the documented rule says %v", ok, t.Label, whitelist, dirs, want), in)
+	}
+	if optsOut && len(whitelist) > 0 && !t.Filegroup {
+		c.Hist("sandbox", fmt.Sprintf("optout accepted=%v", ok))
+	} else {
+		c.Hist("sandbox", "not an opt-out")
+	}
+}
+
+// --- CanSee (visibility + experimental tree)
+
+func docExperimental(dirs []string, l core.BuildLabel) bool {
+	if l.Subrepo != "" {
+		return false
+	}
+	for _, d := range dirs {
+		if under(d, l.PackageName) {
+			return true
+		}
+	}
+	return false
+}
+
+func canSeeCase(c *lib.Ctx, state *core.BuildState, dirs []string, l, dep core.BuildLabel, vis []core.BuildLabel) {
+	dt := core.NewBuildTarget(dep)
+	dt.Visibility = vis
+	got := l.CanSee(state, dt)
+	in := map[string]any{"kind": "cansee", "experimental_dirs": dirs, "label": js(l), "dep": js(dep), "visibility": jsl(vis), "visible": got}
+	c.Case(lib.App("CCanSee", lib.StrList(dirs), coqLabel(l), coqLabel(dep), coqLabels(vis), lib.Bool(got)), in,
+		fmt.Sprint("cs", dirs, l, dep, vis), l.PackageName != dep.PackageName)
+	c.Oracle()
+	expL, expD := docExperimental(dirs, l), docExperimental(dirs, dep)
+	p := l.Parent()
+	want := false
+	switch {
+	case l.PackageName == dep.PackageName:
+		want = true
+	case expD && !expL:
+		want = false
+	default:
+		for _, v := range vis {
+			if docIncludes(v, p) {
+				want = true
+			}
+		}
+		want = want || dep.PackageName == p.PackageName || expL
+	}
+	if got != want {
+		cls := "visibility-hides-selected-package"
+		if got {
+			cls = "visibility-admits-unselected-package"
+		}
+		c.Fail(cls, fmt.Sprintf("%v.CanSee(%v with visibility %v, experimental dirs %v) = %v, the documented rule says %v", l, dep, vis, dirs, got, want), in)
+	}
+	c.Hist("cansee", fmt.Sprintf("visible=%v", got))
+}
+
+// --- expansion of an original pseudo-target over a graph, with --exclude labels
+
+func expandCase(c *lib.Ctx, tree []string, r *lib.Rng) {
+	state := core.NewBuildState(core.DefaultConfiguration())
+	graph := [][2]any{}
+	coqGraph := []string{}
+	all := []core.BuildLabel{}
+	for _, q := range tree {
+		pkg := core.NewPackage(q)
+		names := []string{}
+		for _, n := range []string{"t", "u", "_t#x"} {
+			if r.Chance(2, 3) {
+				names = append(names, n)
+				t := core.NewBuildTarget(core.BuildLabel{PackageName: q, Name: n})
+				pkg.AddTarget(t)
+				state.Graph.AddTarget(t)
+				all = append(all, t.Label)
+			}
+		}
+		state.Graph.AddPackage(pkg)
+		graph = append(graph, [2]any{q, names})
+		coqGraph = append(coqGraph, lib.Pair(lib.Str(q), lib.StrList(names)))
+	}
+	pat := core.BuildLabel{PackageName: lib.Pick(r, tree), Name: lib.Pick(r, []string{"...", "...", "all"})}
+	if r.Chance(1, 5) {
+		pat.PackageName = lib.Pick(r, treeSegs)
+	}
+	excl := []core.BuildLabel{}
+	for k := r.Intn(3); k > 0; k-- {
+		excl = append(excl, core.BuildLabel{PackageName: lib.Pick(r, tree), Name: lib.Pick(r, []string{"...", "all", "t", "_t#x"})})
+	}
+	state.ExcludeTargets = excl
+	got := state.ExpandLabels([]core.BuildLabel{pat})
+	in := map[string]any{"kind": "expand", "graph": graph, "pattern": js(pat), "exclude": jsl(excl), "expanded": jsl(got)}
+	c.Case(lib.App("CExpand", coqLabels(excl), coqLabel(pat), lib.List(coqGraph), coqLabels(got)), in,
+		fmt.Sprint("ex", graph, pat, excl), len(got) > 0)
+	// oracle: exactly the targets of the selected packages that no exclusion selects
+	c.Oracle()
+	want := map[core.BuildLabel]bool{}
+	for _, l := range all {
+		sel := docIncludes(pat, core.BuildLabel{PackageName: l.PackageName})
+		if pat.Name == "all" {
+			sel = l.PackageName == pat.PackageName
+		}
+		for _, e := range excl {
+			if docIncludes(e, l) {
+				sel = false
+			}
+		}
+		if sel {
+			want[l] = true
+		}
+	}
+	bad := len(want) != len(got)
+	for _, l := range got {
+		if !want[l] {
+			bad = true
+		}
+	}
+	if bad {
+		over := false
+		for _, l := range got {
+			if !want[l] {
+				over = true
+			}
+		}
+		cls := "expansion-misses-selected-target"
+		if over {
+			cls = "expansion-selects-unselected-target"
+		}
+		c.Fail(cls, fmt.Sprintf("expanding %v (exclude %v) over packages %v gave %v", pat, excl, tree, got), in)
+	}
+	c.HistN("expanded_targets", len(got))
+}
+
+// ------------------------------------------------------------------------------------------------
+
+func main() {
+	lib.Main("C20", func(c *lib.Ctx) {
+		c.Model("From PlzV Require Import Model.C20.", "C20.case", "C20.check")
+		maxLen := c.Scale(6, 7)
+		c.Rule(fmt.Sprintf("parse/print: EVERY string of length <= %d over the 8 symbols %q through core.TryParseBuildLabel in package a/a "+
+			"(one case per prefix group: the model must accept exactly the same strings with the same labels), plus structured label strings in 12 "+
+			"syntactic forms with 0-2 byte mutations, random current package and subrepo argument; every accepted string is round-tripped through String(). "+
+			"selection: random package trees of 2-5 seeds over 13 segment names, each with shared-prefix siblings (q+foo, q minus a byte), children and parents; "+
+			"all (pattern, label) pairs of a tree through Includes and Matches; validateSandbox (hook) on every tree package under a whitelist and experimental "+
+			"dirs drawn from the tree; CanSee with experimental dirs and visibility patterns; ExpandLabels over a graph of the tree with exclusions. "+
+			"distinct = distinct inputs; non-trivial = accepted string / tree with a shared-prefix sibling pair under a `...` pattern / an actual sandbox opt-out "+
+			"/ different packages / non-empty expansion", maxLen, alphabet))
+
+		labels := map[core.BuildLabel]bool{}
+
+		// --- 1a. exhaustive strings
+		plen := c.Scale(2, 3)
+		st := &enumStats{}
+		enumGroup(c, "", plen-1, "a/a", st, labels)
+		for _, p := range allStrings(plen) {
+			enumGroup(c, p, maxLen-plen, "a/a", st, labels)
+		}
+		c.Exhaustive(true)
+		c.Note("parse/print: exhaustive over all %d strings of length <= %d over %q: %d accepted, %d of them fail the round trip (known classes)", st.strings, maxLen, alphabet, st.accepted, st.failing)
+
+		// --- 1b. adversarial stream: the known witnesses first, then structured + mutated strings
+		for _, w := range [][3]string{{"//.a", "", ""}, {"@a/:a", "", ""}, {"//:_ORIGINAL", "", ""}, {"@.a", "", ""}, {"///a/:a", "x", ""},
+			{"//x._build", "", ""}, {"//a/...", "", "sub"}, {"//a:b", "", "sub"}, {"//a", "", "sub"}, {":b", "x/y", "sub"}, {"@//a:b", "", ""},
+			{"///a///b///c//d:e", "", ""}, {"@@a", "", ""}, {"//...", "", ""}, {"///...", "", ""}, {"//a/.../...", "", ""}, {"//a:...", "", ""},
+			{":...", "", ""}, {"//a//...", "", ""}, {"//", "", ""}, {"", "", ""}, {":", "", ""}, {"@", "", ""}, {"@:", "", ""}, {"@a:", "", ""}} {
+			parseCase(c, w[0], w[1], w[2], labels)
+		}
+		nfuzz := c.Scale(700, 12000)
+		for i := 0; i < nfuzz; i++ {
+			r := c.Rng.Fork()
+			sub := ""
+			if r.Chance(1, 4) {
+				sub = lib.Pick(r, subPool)
+			}
+			parseCase(c, genLabelString(r), genValidPkg(r), sub, labels)
+		}
+
+		// --- 1c. String() of every label seen (capped), plus constructed ones
+		labels[core.BuildLabel{}] = true
+		labels[core.OriginalTarget] = true
+		labels[core.BuildLabelStdin] = true
+		labels[core.BuildLabel{Name: "..."}] = true
+		labels[core.BuildLabel{PackageName: "a", Name: "...", Subrepo: "s"}] = true
+		labels[core.BuildLabel{Name: "...", Subrepo: "s"}] = true
+		labels[core.BuildLabel{PackageName: "a", Subrepo: "s"}] = true
+		labels[core.BuildLabel{Subrepo: "s"}] = true
+		ls := []core.BuildLabel{}
+		for l := range labels {
+			ls = append(ls, l)
+		}
+		sort.Slice(ls, func(i, j int) bool { return ls[i].Less(ls[j]) })
+		lib.Shuffle(c.Rng, ls)
+		if n := c.Scale(600, 6000); len(ls) > n {
+			ls = ls[:n]
+		}
+		ls = append(ls, core.BuildLabel{}, core.OriginalTarget)
+		for _, l := range ls {
+			p := l.String()
+			c.Case(lib.App("CPrint", coqLabel(l), lib.Str(p)), map[string]any{"kind": "print", "label": js(l), "printed": p}, "print "+fmt.Sprintf("%q", l), l.Subrepo != "" || l.Name == "...")
+			pl := l.Parent()
+			c.Case(lib.App("CParent", coqLabel(l), coqLabel(pl)), map[string]any{"kind": "parent", "label": js(l), "parent": js(pl)}, "parent "+fmt.Sprintf("%q", l), pl != l)
+		}
+
+		// --- 2. selection over package trees
+		// the pre-fix witness (corpus/C20/sandbox_whitelist_prefix_repo.tar): whitelist //p/..., experimental dir exp
+		wl := []core.BuildLabel{{PackageName: "p", Name: "..."}}
+		for _, q := range []string{"p", "p/sub", "pfoo", "exp", "expo", "exp/x", "q", "_please", ""} {
+			sandboxCase(c, wl, []string{"exp"}, sbxTarget{Label: core.BuildLabel{PackageName: q, Name: "t"}})
+		}
+		selectCase(c, []core.BuildLabel{{PackageName: "p", Name: "..."}, {PackageName: "p", Name: "all"}, {PackageName: "", Name: "..."}, {PackageName: ".", Name: "..."},
+			{PackageName: "exp", Name: "..."}, {PackageName: "p", Name: "t"}},
+			[]core.BuildLabel{{PackageName: "p", Name: "t"}, {PackageName: "p/sub", Name: "t"}, {PackageName: "pfoo", Name: "t"}, {PackageName: "p", Name: "_t#x"},
+				{PackageName: "expo", Name: "t"}, {PackageName: "", Name: "t"}, {PackageName: "pfoo/p", Name: "t"}})
+
+		ntrees := c.Scale(120, 2500)
+		for i := 0; i < ntrees; i++ {
+			r := c.Rng.Fork()
+			tree := genTree(r)
+			c.HistN("tree_packages", len(tree))
+			pats, others := genPatterns(r, tree), genOthers(r, tree)
+			selectCase(c, pats, others)
+
+			// sandbox: whitelist and experimental dirs from the tree
+			whitelist := []core.BuildLabel{}
+			for k := r.Range(0, 2); k > 0; k-- {
+				whitelist = append(whitelist, lib.Pick(r, pats))
+			}
+			dirs := []string{}
+			for k := r.Range(0, 2); k > 0; k-- {
+				// an experimental directory is a directory below the root: never "" or "."
+				if d := lib.Pick(r, tree); d != "" && d != "." {
+					dirs = append(dirs, d)
+				}
+			}
+			for _, o := range others {
+				t := sbxTarget{Label: o, Filegroup: r.Chance(1, 12), Remote: r.Chance(1, 8), Sandbox: r.Chance(1, 4), HasTest: r.Chance(1, 3), TestSbx: r.Bool()}
+				sandboxCase(c, whitelist, dirs, t)
+			}
+
+			// visibility / experimental tree
+			cfg := core.DefaultConfiguration()
+			cfg.Parse.ExperimentalDir = dirs
+			state := core.NewBuildState(cfg)
+			for k := 0; k < 6; k++ {
+				vis := []core.BuildLabel{}
+				for j := r.Range(0, 2); j > 0; j-- {
+					vis = append(vis, lib.Pick(r, pats))
+				}
+				canSeeCase(c, state, dirs, lib.Pick(r, others), lib.Pick(r, others), vis)
+			}
+
+			expandCase(c, tree, r)
+		}
+	})
 }
